@@ -727,3 +727,25 @@ M('C01', 'cells ranked among the occurring coordinates', 'C01-D5',
 M('C20', 'active bins counted as non-zero positions', 'C08-D3', (BIN, '    N = len(np.unique(np.nonzero(catalog.spatial_magnitude_counts().ravel())))', '    N = np.count_nonzero(np.unique(np.nonzero(catalog.spatial_magnitude_counts().ravel())))'))
 M('C13', 'loader yields nothing for a file without records', 'C12-D2',
   (CAT, '                # yield final catalog, note: since this is just loading catalogs, it has no idea how many should be there\n', '                if prev_id is None:\n                    return\n                # yield final catalog, note: since this is just loading catalogs, it has no idea how many should be there\n'))
+
+# ------------------------------------------------------------------------------------------------ round 9 rules (same-type confusions)
+M('C02', 'scale is the smaller of the two factors', 'C02-D5.larger', (CALC, '    scale = max(10**num_decimals_bins, _snap_to_integer(1 / h))', '    scale = min(10**num_decimals_bins, _snap_to_integer(1 / h))'))
+M('C06', 'Brier sampling weights from the probability of one or more events', 'C06-D4.rates',
+  (BRI, '    sampling_weights = numpy.cumsum(forecast_data.filled(0.0).ravel())', '    sampling_weights = numpy.cumsum(1 - poisson.cdf(0, forecast_data.filled(0.0).ravel()))'))
+E('C06', 'Brier sampling weights from a flattened copy of the rates',
+  (BRI, '    sampling_weights = numpy.cumsum(forecast_data.filled(0.0).ravel())', '    sampling_weights = numpy.cumsum(numpy.asarray(forecast_data.filled(0.0)).flatten())'))
+M('C13', 'cache receives the catalog as loaded, the pass yields the filtered one', 'C13-D5.cached',
+  (FOR, "            if self.filters:\n                catalog = catalog.filter(self.filters)\n", "            raw = catalog\n            if self.filters:\n                catalog = catalog.filter(self.filters, in_place=False)\n"),
+  (FOR, '            self._catalogs.append(catalog)', '            self._catalogs.append(raw if self.apply_filters else catalog)'))
+M('C13', 'evaluation loops over the container behind the iterator', 'C13-D10.iterator',
+  (CEV, '    # THIS IS NEW - returns the average events in the magnitude bins\n    union_histogram = numpy.zeros(len(forecast.magnitudes))\n    for j, cat in enumerate(forecast):\n',
+   '    # THIS IS NEW - returns the average events in the magnitude bins\n    union_histogram = numpy.zeros(len(forecast.magnitudes))\n    for j, cat in enumerate(forecast.catalogs):\n'))
+M('C14', 'region class handed the catalog dictionary', 'C14-D5.restore', (CAT, 'setattr(out, k, region_loader[class_id].from_dict(adict[k]))', 'setattr(out, k, region_loader[class_id].from_dict(adict))'))
+M('C14', 'catalog id read from the depth column', 'C14-D7.idcolumn', (RDR, '                catalog_id = int(line[5])', '                catalog_id = int(line[4])'))
+M('C05', 'space-magnitude counts located with (lats, lons)', 'C01-D2',
+  (CAT, '            spatial_idx = self.region.get_index_of(self.get_longitudes(), self.get_latitudes())', '            spatial_idx = self.region.get_index_of(self.get_latitudes(), self.get_longitudes())'))
+M('C19', 'repair a76309f undone: the parsed fraction of the second is dropped', 'C19-D4.subsecond', (RDR, "        out['microsecond'] = dt.microsecond\n", ""),
+  (RDR, "            date_time_dict['second'],\n            date_time_dict['microsecond']\n        )\n        out_tup", "            date_time_dict['second']\n        )\n        out_tup"),
+  (RDR, "                date_time_dict['second'],\n                date_time_dict['microsecond']\n            )", "                date_time_dict['second']\n            )"))
+M('C19', 'one reader ignores the fraction the helper returns', 'C19-D4.components',
+  (RDR, "            date_time_dict['second'],\n            date_time_dict['microsecond']\n        )\n        out_tup", "            date_time_dict['second']\n        )\n        out_tup"))
